@@ -701,7 +701,11 @@ def mul_dekker(
 
     if fix_overflow:
         largest = get_largest(ctx, x)
-        overflow = abs(xh * yh) > largest
+        if assume_fma:
+            # no Veltkamp halves on this path
+            overflow = abs(xyh) > largest
+        else:
+            overflow = abs(xh * yh) > largest
         xyh = ctx.select(overflow, x * y, xyh)
         xyl = ctx.select(overflow, 0, xyl)
     return xyh, xyl
